@@ -3,7 +3,7 @@
    enc=1: RC4 connection. The model is run with the all-zero keystream, i.e. it prints the stream
    as the peer sees it AFTER decrypting with its own (independent) RC4; by theorem
    piece_bytes_exact_rc4 the wire bytes for any keystream ks are that stream XOR ks at consecutive
-   positions.
+   positions. enc=2 (MSE handshake, plaintext stream selected) is a plain stream for the model.
    op ::= R:i:b:l | C:i:b:l | D:0 | D:1 | W:k | W:inf
    Output: closed=<0|1> n=<stream bytes> md5=<hex> msgs=<C0|C1|P:i:b:l,...|-> snaps=<one per W op;...|-> q=<final queue|-|X>
    snapshot after each W op: <I|M|P>/<choked><send_choked>/<queue length>/<cur i:o:l>[/e<encrypt buffer remaining>:<size_end>]  or X when closed *)
